@@ -88,7 +88,12 @@ def eval_group(arg):
         shutil.copytree(dst.root, pristine, symlinks=True)
         work = os.path.join(sc.root, "work")
         for fault in faults:
-            shutil.rmtree(dst.root, ignore_errors=True)
+            for _try in range(20):
+                # (a child of a killed restore - tar - may still be writing into the project for a moment)
+                shutil.rmtree(dst.root, ignore_errors=True)
+                if not os.path.lexists(dst.root):
+                    break
+                time.sleep(0.05)
             shutil.copytree(pristine, dst.root, symlinks=True)
             kind = fault["kind"]
             arch = os.path.join(sc.root, "in.tar.gz")
